@@ -10,7 +10,11 @@ PROPS.append(('C02', """(* C02 - reported confidence never overstates the simila
    oracle whose only assumed property is validity of the edit script it returns
    ([valid_script]: Equal+Delete texts give the span, Equal+Insert texts give the
    document; no empty entries) - validated on every diff of every check run.
-   [lev] is the word-level Levenshtein distance. *)""", IMP_V2, [
+   [lev] is the word-level Levenshtein distance. *)""", IMP_V2 + "\nFrom LC.V2 Require Import Glue.", [
+ ('C02_confidence_bound', 'C02_confidence_bound', 'V2/Glue.v',
+  'THE PROPERTY, composed end to end (scoring model + float64): with R\' the span minus the reported offsets and K the document, an accepted match has Confidence <= fl(1 - fl(L/|K|)) for the true word-level Levenshtein distance L = lev R\' K; a rejected one has confidence +0; Confidence = 1.0 only if R\' = K'),
+ ('C02_rejected_case_needs_the_guard', 'C02_rejected_counterexample', 'V2/Glue.v',
+  'why the bound is stated for accepted matches: for a rejected candidate (confidence 0 by decision, not by distance) 1 - L/|K| can be negative'),
  ('C02_distance_and_span', 'score_sound_cases', 'V2/ScoringProof.v',
   'Main theorem: for ANY valid script the confidence is 1 - D/|K| (as float64) for a D that is at least the true Levenshtein distance between the document and the span with exactly so leading / eo trailing words removed; D = 0 only if they are identical; otherwise the match was rejected with confidence 0.'),
  ('C02_script_cost_bounds_levenshtein', 'lev_ids_bound', 'V2/ScoringProof.v',
@@ -54,7 +58,11 @@ PROPS.append(('C04', """(* C04 - Match is a deterministic function of corpus and
 
 PROPS.append(('C03', """(* C03 - nothing below the threshold is reported; every result is well formed.
    Statements only; proofs in V2/MatchWF.v, V2/TokInv.v, Base/SortProof.v,
-   Base/Float64Proof.v. *)""", IMP_V2 + "\nFrom LC.V2 Require Import TokInv.", [
+   Base/Float64Proof.v; composed in V2/Glue.v. *)""", IMP_V2 + "\nFrom LC.V2 Require Import TokInv Glue.", [
+ ('C03_all_in_one', 'C03_all_in_one', 'V2/Glue.v',
+  'THE PROPERTY, composed end to end (tokenizer + matcher): for the tokenisation of ANY rune string, every reported match is a Copyright pseudo match (confidence 1.0, one line inside the input) or a document match with threshold <= confidence, 1 <= StartLine <= EndLine <= TotalInputLines <= 1 + number of newlines, 0 <= StartTokenIndex <= EndTokenIndex < number of words, lines = lines of those tokens'),
+ ('C03_sorted_by_confidence', 'C03_sorted_by_confidence', 'V2/Glue.v',
+  'the reported matches are in non-increasing confidence order (both comparators)'),
  ('C03_every_match_well_formed', 'match_tokens_wf', 'V2/MatchWF.v',
   'every reported match is a Copyright pseudo match (confidence 1.0, one line) or belongs to a corpus document: its (type, name, variant) is the key of that document, threshold <= confidence, 0 <= start token <= end token < number of input words, and Start/EndLine are the lines of those two tokens'),
  ('C03_lines_ordered', 'lines_ok', 'V2/MatchWF.v',
@@ -77,7 +85,9 @@ PROPS.append(('C03', """(* C03 - nothing below the threshold is reported; every 
 
 PROPS.append(('C10', """(* C10 - the v2 API is total on arbitrary bytes (model level: no Err result,
    i.e. no out-of-range access, and all recursion is structural or on fuel that
-   provably suffices).  Statements only. *)""", IMP_V2 + "\nFrom LC.V2 Require Import TokInv Reader ReaderProof.", [
+   provably suffices).  Statements only. *)""", IMP_V2 + "\nFrom LC.V2 Require Import TokInv Reader ReaderProof Glue.", [
+ ('C10_total_for_valid_oracle', 'C10_total_for_valid_oracle', 'V2/Glue.v',
+  'Match is total for every threshold, corpus and input whenever the diff oracle returns valid edit scripts for the ranges it is asked about (the contract validated on every diff of every run) - no other hypothesis on scoring'),
  ('C10_match_total', 'match_tokens_total', 'V2/MatchWF.v',
   'match never hits an index-out-of-range site, for every threshold (0 included since the "fix:"), corpus and input, given a valid diff oracle and well-formed search sets'),
  ('C10_early_exit', 'match_tokens_early_exit', 'V2/MatchWF.v',
